@@ -7,7 +7,7 @@
 // <crc> = option flags of THAT session (mkopts: 1 checksum checking, 2 4 KB log buffer, 4 no trim on close); the flags of a
 // rec/wal/continuation session need not be the writer's: the checks also recover with the other buffer size / checksum setting
 // ops: p<db>:<keyhex>:<vlen>:<seed>  d<db>:<keyhex>  s (iwkv_sync)  c (checkpoint)  n<db> (create db)  q (close, exit)
-//      Q<k> (close whose k-th log write fails with EFBIG, exit)
+//      Q<k> (close whose k-th log write fails with EFBIG, exit)  x<db> (iwkv_db_destroy)
 //      b (online backup into <dir>/bkp)
 // Effects are numbered through the iwverif_fx hook when /repo has it (IOWOW_VERIF_FX_HOOK), otherwise
 // through -Wl,--wrap of the libc calls (HWAL_WRAP), otherwise not at all (op-boundary kills only).
@@ -355,6 +355,13 @@ static void exec_op(int i) {
   } else if (op[0] == 'n') {
     struct iwdb *db = 0;
     rc = iwkv_db(kv, (uint32_t) (op[1] - '0'), 0, &db); dumpit = 1;
+  } else if (op[0] == 'x') {
+    // x<db>: iwkv_db_destroy - its blocks go back to the allocator; a database created next can land on them
+    struct iwdb *db = 0;
+    uint32_t dbid = (uint32_t) (op[1] - '0');
+    rc = iwhmap_get_u32(kv->dbs, dbid) ? iwkv_db(kv, dbid, 0, &db) : IWKV_ERROR_NOTFOUND;
+    if (!rc) rc = iwkv_db_destroy(&db);
+    dumpit = 1;
   } else if (op[0] == 'F') {
     // F<k>: online backup into <dir>/bkp whose k-th write to the target fails (disk full); no writer inside.
     // A backup that does not come back within 10 s is reported as a hang (exit=SIG14).
@@ -566,10 +573,18 @@ static void child_wal(const char *dir, int crc, int wfd) {
     if (mm != MAP_FAILED) mc = zcrc(mm, (size_t) msz);
   }
   int n;
+  // mappings of the log file still present after the recovery step (_rollforward_exl maps the log and must unmap it)
+  int walmaps = 0;
+  {
+    FILE *mf = fopen("/proc/self/maps", "r");
+    char ml[1024];
+    while (mf && fgets(ml, sizeof(ml), mf)) if (strstr(ml, g_walpath)) ++walmaps;
+    if (mf) fclose(mf);
+  }
 #ifdef IOWOW_VERIF_FX_HOOK
-  n = snprintf(b, sizeof(b), "rc=%s applied=%lld:%016llx main=%lld:%08x walsz=%lld", rcs(rc), g_rec_n, g_rec_hash, msz, mc, fsize(g_walpath));
+  n = snprintf(b, sizeof(b), "rc=%s applied=%lld:%016llx main=%lld:%08x walsz=%lld walmaps=%d", rcs(rc), g_rec_n, g_rec_hash, msz, mc, fsize(g_walpath), walmaps);
 #else
-  n = snprintf(b, sizeof(b), "rc=%s applied=- main=%lld:%08x walsz=%lld", rcs(rc), msz, mc, fsize(g_walpath));
+  n = snprintf(b, sizeof(b), "rc=%s applied=- main=%lld:%08x walsz=%lld walmaps=%d", rcs(rc), msz, mc, fsize(g_walpath), walmaps);
 #endif
   ssize_t r = RAW_WRITE(wfd, b, n); (void) r;
   _exit(0);
